@@ -27,7 +27,12 @@ def series(rng, n, anchors, p_missing=0.15):
     return [None if rng.random() < p_missing else around(rng, anchors) for _ in range(n)]
 
 
+FORCE_N = None          # set by the long-input sub-check: every generated series gets exactly this length
+
+
 def length(rng, maxn=12):
+    if FORCE_N is not None:
+        return FORCE_N
     r = rng.random()
     if r < 0.08:
         return 0
